@@ -152,6 +152,37 @@ def main():
         elif err is not None or got != truth:
             raise OracleFired('list_names differs from the NAME tokens of the reference lexer')
 
+    if mode.startswith('check:'):
+        # generic: the named check's own run_case on ('<kind>', text[, 0]) cases, in this process, under coverage guidance; the oracle fired when the check
+        # recorded a violation that its classifier did not attribute to a listed known finding
+        _, cid, kind = mode.split(':')
+        from lib import core
+        mod = core.load_check(cid)
+        cctx = core.Ctx(cid, 0, 1, 'quick', int(seed))
+        cctx.sandbox_dir = sandbox_dir
+        mod.setup(cctx)
+        extra = (0,) if cid == 'C06' else ()
+
+        def target_check(data):
+            try:
+                text = data.decode('utf-8', 'surrogatepass')
+            except UnicodeDecodeError:
+                text = data.decode('latin-1')
+            stats['texts'] += 1
+            if stats['texts'] % 500 == 0:
+                stats['counters'] = {k: v for k, v in list(cctx.counters.items())[:40]}
+                json.dump(stats, open(os.path.join(work, 'stats.json'), 'w'))
+                cctx.nontrivial.clear()
+                del cctx.samples[:]
+            del cctx.violations[:]
+            try:
+                mod.run_case((kind, text) + extra, cctx)
+            except RecursionError:
+                return
+            if any(v['finding'] is None for v in cctx.violations):
+                raise OracleFired(cctx.violations[0]['what'])
+        target = target_check
+
     if mode == 'c06':
         target = target_c06
     if mode == 'c18':
